@@ -383,6 +383,11 @@ def int_ord(vm, m, callee, args):
     return some(o) if callee.endswith('partial_cmp') else o
 
 
+@native(r"^<(bitvec::ptr::)?BitRef<.*> as (std::ops::)?Not>::not$", 'negation of a bit reference yields the negated bool')
+def bitref_not(vm, m, callee, args):
+    return Not(bool_(dv(vm, args[0])))
+
+
 @native(r'^<&?bool as (std::ops::)?Not>::not$', 'bool negation')
 def bool_not(vm, m, callee, args):
     return Not(bool_(dv(vm, args[0])))
@@ -674,6 +679,35 @@ def it_collect(vm, m, callee, args):
 @native(r' as Iterator>::collect::<(bitvec::vec::)?BitVec>$', 'collect bools into a BitVec')
 def it_collect_bits(vm, m, callee, args):
     return consume(vm, m, callee, args, lambda items: Bits([bool_(dv(vm, x)) for x in unconditional(items)]))
+
+
+@native(r' as Iterator>::collect::<(array::)?(primitive_array::)?PrimitiveArray<.*>>$', "collect into a PrimitiveArray: the crate's own FromIterator impl (interpreted from its MIR)")
+def it_collect_prim(vm, m, callee, args):
+    items, _ = it_items(vm, m, args[0])
+    opt = any(isinstance(dv(vm, x), (Enum, SymEnum)) and getattr(dv(vm, x), 'ty', None) == 'Option' for _, x in items)
+    want = 'Option<T>' if opt else 'T'
+    cands = []
+    for name in vm.prog.by_tail.get('from_iter', []):
+        info = vm.prog.impl_info(name)
+        if info and info[0] and info[0].replace(' ', '') == 'FromIterator<%s>' % want and info[1].replace(' ', '').startswith('PrimitiveArray<T>'):
+            cands.append(name)
+    if len(cands) != 1:
+        raise Unsupported('FromIterator<%s> for PrimitiveArray<T>: %d candidates' % (want, len(cands)))
+    t = re.search(r'PrimitiveArray<(.*)>>$', callee).group(1)
+    val, pan = call_merged(vm, m, cands[0], [args[0]], {'T': t})
+    if pan is not None:
+        raise Unsupported('from_iter may panic')
+    return val
+
+
+@native(r'^<\[.*\] as (std::ops::)?Index<(std::ops::)?RangeFrom<usize>>>::index$', 'slice[start..]')
+def slice_from(vm, m, callee, args):
+    s = dv(vm, args[0])
+    r = dv(vm, args[1])
+    start = concrete_int(r.fields[0] if isinstance(r, Struct) else r)
+    if not isinstance(s, Seq) or start is None:
+        raise Unsupported('slice[start..] of %r' % (s,))
+    return Ref(Cell(Seq(s.items[start:], 'slice')))
 
 
 @native(r' as Iterator>::count$', 'Iterator::count')
